@@ -52,6 +52,11 @@ fn alphabet0(b: &Built) -> Vec<Op> {
         a.push(Op::Dec { pos, part: Part::Wrap(1_000_000_007 + pos as u64), v2: pos % 2 == 0 });
     }
     a.push(Op::Dec { pos: 0, part: Part::Wrap(1), v2: false });
+    a.push(Op::Dec { pos: 1, part: Part::Over(1), v2: true });
+    a.push(Op::Dec { pos: 0, part: Part::Over(u64::MAX), v2: false });
+    a.push(Op::Inc { pos: 0, liq: 0, v2: false });
+    a.push(Op::Inc { pos: 1, liq: (1u128 << 127) + 5, v2: true });
+    a.push(Op::Inc { pos: 2, liq: u128::MAX, v2: false });
     if b.w.pool.tick_spacing == 64 {
         a.push(Op::Repos { pos: 0, lower: -64, upper: 192, liq: 123_456_789 });
         a.push(Op::Repos { pos: 0, lower: -128, upper: 128, liq: stdworlds::BIG });
